@@ -128,7 +128,18 @@ func (e *Engine) initExt2() {
 			if gl := lockName(args[0]); gl != "" && f.vc.want("LOCK") {
 				f.lockCheck(st, &Loc{Kind: LGlobal, Root: "G|" + gl}, strings.HasSuffix(n, "Store") || strings.HasSuffix(n, "Delete"), pos)
 			}
-			return freshResult(f, st, rt, "syncmap")
+			v := freshResult(f, st, rt, "syncmap")
+			if gl := lockName(args[0]); gl == "writer.serializers" && strings.HasSuffix(n, "Load") && len(v.L) >= 2 {
+				// registry invariant (RegisterSerializer is typed): the registry holds
+				// native.Serializer values, possibly the nil interface
+				if ip := f.vc.eng.typesPkgByName("native"); ip != nil {
+					if o := ip.Scope().Lookup("Serializer"); o != nil {
+						impl := f.vc.declareFun("implements|"+typeKey(o.Type()), []*Sort{SInt}, SBool)
+						f.vc.fact(Or(Eq(v.L[0], Zero), mk(SBool, impl, v.L[0])))
+					}
+				}
+			}
+			return v
 		})
 	}
 
